@@ -91,6 +91,18 @@ type Contract struct {
 	// function is under contract for its site assertions only).  ASSUMPTION,
 	// reported in the evidence.
 	AssumeCalleeRequires bool
+	// PrivateParams: pointer parameters whose target cell is written only by
+	// this function while it runs.  CHECKED, not assumed, for unexported
+	// functions: every call in the package passes the address of a local
+	// variable that is otherwise only loaded and stored (see
+	// checkPrivateParams); for exported functions it is an assumption.
+	PrivateParams []string
+	// AbstractFloatDiv: floating-point quotients are translated as an
+	// uninterpreted function of their operands instead of IEEE division (an
+	// over-approximation: sound, costs precision only); for functions whose
+	// contract does not speak about the quotients, where bit-blasting the
+	// dividers dominates the solver time.
+	AbstractFloatDiv bool
 	// Bounded stand-in (never counted as proved): an exhaustive test of the
 	// real function up to a stated bound, injected with `go test -overlay`.
 	Bounded *BoundedSpec
@@ -113,7 +125,7 @@ type ContractFile struct {
 	Ghosts    map[string]string
 }
 
-var kwRe = regexp.MustCompile(`^(func|props|mode|requires|ghostinit|ensures_thorough|ensures|safe|pure|bounded|privatecaptures|assumecalleerequires|modifies|preserves|assumed|lemma|nonnil|loop|invariant|unroll|decreases|site|assert|assume|hint|ghostset|ghostdecl|spec|note|end)\b`)
+var kwRe = regexp.MustCompile(`^(func|props|mode|requires|ghostinit|ensures_thorough|ensures|safe|pure|bounded|privatecaptures|privateparam|abstractfloatdiv|assumecalleerequires|modifies|preserves|assumed|lemma|nonnil|loop|invariant|unroll|decreases|site|assert|assume|hint|ghostset|ghostdecl|spec|note|end)\b`)
 var ghostInitRe = regexp.MustCompile(`^ghost\([A-Za-z0-9_.]+,\s*"[A-Za-z0-9_]+"\)\s*==\s*-?[0-9]+$`)
 var ghostNameRe = regexp.MustCompile(`ghost(?:at)?\((?:[^"]*)"([A-Za-z0-9_]+)"\)`)
 var labelRe = regexp.MustCompile(`^\[([A-Za-z0-9_.\-]+)\]\s*`)
@@ -256,6 +268,10 @@ func ParseContractFile(path, pkgPath string) (*ContractFile, error) {
 			cur.AssumeCalleeRequires = true
 		case "privatecaptures":
 			cur.PrivateCaptures = true
+		case "abstractfloatdiv":
+			cur.AbstractFloatDiv = true
+		case "privateparam":
+			cur.PrivateParams = append(cur.PrivateParams, strings.Fields(rest)...)
 		case "safe":
 			cur.Safe = true
 		case "pure":
